@@ -148,7 +148,7 @@ func (c canLoader) LoadTopCandidates(blockHash common.Hash) types.DeputyNodes {
 
 func (c canLoader) LoadRefundCandidates(height uint32) ([]common.Address, error) {
 	result := make([]common.Address, 0)
-	addrList, err := c.db.GetAllCandidates()
+	addrList, err := c.db.GetAllCandidatesByBlock(c.am.BaseBlockHash()) // as DPoVP.LoadRefundCandidates after its fix 44765a9: the candidates of the parent block's state
 	if err != nil {
 		return nil, err
 	}
